@@ -9,10 +9,42 @@ TB = ("trusted base: go1.26.8 testing/synctest (quiescence detection, virtual cl
       "(replay divergence is a harness error, never a violation); bounds as stated in the evidence file")
 
 CHECKS = {
- "C01": ("model_checking", "deviation-bounded DFS over schedules x sizes x termination points of the real tunnel, content-pattern prefix oracle",
-         "Every execution is the real implementation under a controlled scheduler; all schedules with <= D deviations from a deterministic default (D=1 quick, 2 thorough at carrier/application granularity; D=2/3 at lock/atomic/channel granularity inside the framing and flow-control functions) for every dir x flow-control x shape x size list over the chunk/window boundary alphabet, for 2-3 concurrent RPCs, and for every termination cause at every quiescent point. Exhaustive within the bound; nothing sampled.", "3.C01"),
+ "C01": ("model_checking", "deviation-bounded DFS over schedules x sizes x termination points of the real tunnel; content-pattern prefix oracle",
+         "Every execution is the real implementation under a controlled scheduler. Enumerated completely: every dir x flow-control x shape x size list over the chunk/window boundary alphabet (D<=1 quick, 2 thorough, carrier/application granularity); 2-3 concurrent RPCs; every termination cause at every quiescent point; lock/atomic/condition/channel granularity inside the framing and flow-control functions (D<=2/3) and with a termination cause in either order (two default-scheduler families).", "3.C01"),
+ "C02": ("model_checking", "exhaustive input enumeration (statuses, metadata maps, handler op sequences, call options) + deviation-bounded DFS at lock granularity of the client's completion path; reference model of gRPC header/trailer rules",
+         "Inputs: finite alphabets enumerated completely and executed on the real tunnel. Schedules: all with <= 2 (quick) / 3 (thorough) deviations where every synchronisation operation of finishStream / Header / Trailer / RecvMsg / Invoke is a scheduling point, with Trailer() and option targets read immediately after the terminal result.", "3.C02"),
+ "C03": ("model_checking", "deviation-bounded DFS over all frame timings of bystander RPCs against each kind of disturber RPC; oracle: bystanders end exactly as alone",
+         "All relative timings with <= 1 (quick) / 2 (thorough) deviations of bystander sets x 11 disturbers x forward/reverse x carrier capacity 1/unbounded; hang decided exactly (no enabled thread, virtual clock exhausted).", "3.C03"),
+ "C04": ("fault_enumeration", "every termination cause at every quiescent point of stuck-in-every-phase workloads; TERM + leak oracle",
+         "Fault enumeration: cause x k for every quiescent point k of the run (quick), plus one further schedule deviation (thorough), for 8 causes x flow control / revision zero x 7 in-flight sets.", "3.C04"),
+ "C05": ("model_checking", "unbounded / deviation-bounded DFS of the real flow-control core at atomic-operation granularity + frame-level DFS of whole tunnels with a credit-conservation invariant at idle states",
+         "Core: all interleavings (small configurations) or all with <= 3/4 deviations of send vs. window updates vs. cancel and accept vs. dequeue vs. close/cancel on the real defaultSender/defaultReceiver. Tunnel: 1-3 streams x 2-3 windows x capacities {1,2,unbounded} with the invariant sender window == peer receiver window at every idle quiescent point.", "3.C05"),
+ "C06": ("model_checking", "wire monitor of the window invariants on every frame of every execution + enumerated overrunning raw peers (both roles)",
+         "Overrun by {1, 16384, 196608} bytes x {envelope, continuation, new message} x {0,1,4} frames consumed, both roles, all schedules with <= 1/2 deviations; plus the C05 tunnel and C01 multi-RPC workloads re-run with only the window and protocol monitors.", "3.C06"),
+ "C07": ("fault_enumeration", "cancel / deadline at every quiescent point of an RPC x orderings of the racing frames; exactly-one-legal-outcome oracle",
+         "Every point of every shape x handler variant x direction x flow control; thorough adds one further deviation which orders the cancel frame against the peer's close/data/window frames.", "3.C07"),
+ "C08": ("model_checking", "deviation-bounded DFS of concurrent stream creation at lock granularity + exhaustive raw-peer id histories against a reference automaton",
+         "2-3 goroutines starting RPCs with every lock/atomic/channel operation of creation, id allocation and the send wrappers as a scheduling point; every id history of length <= 3 (quick) / 4 (thorough) over 20 frames.", "3.C08"),
+ "C09": ("model_checking", "bounded-exhaustive frame histories in both roles against a protocol reference classifier",
+         "Every history of length <= 3 over a 26-frame client alphabet (thorough: + every length-4 history that opens a stream first) against the real server, and of length <= 3 over a 22-frame server alphabet against the real client; panic capture, exact hang detection, leak and window-bound oracles.", "3.C09"),
+ "C10": ("model_checking", "graceful shutdown at every quiescent point x in-flight workloads x later RPCs; differential oracle (in-flight RPCs end as without shutdown)",
+         "Shutdown alone at every point (quick) plus one further deviation (thorough) over 7 in-flight sets x 1-2 later RPCs x forward/reverse x flow control; Stop ordering checked on the virtual step clock.", "3.C10"),
+ "C11": ("exploration", "full configuration matrix + enumerated settings messages against a reference negotiation function, wire facts from the tap",
+         "Configurations and settings messages are finite sets enumerated completely, each explored with <= 1 (quick) / 2 (thorough) schedule deviations; quantifier is over configurations/inputs, hence exploration.", "3.C11"),
+ "C12": ("model_checking", "registry histories with every lock/atomic/channel operation of the registry code as a scheduling point; set-model oracle at check points",
+         "Open/close (4 ways)/route/query histories over <= 4 tunnels and 3 keys, all schedules with <= 1 (quick) / 2 (thorough) deviations.", "3.C12"),
+ "C13": ("model_checking", "online protocol automaton (from tunnel.proto) on every frame of the union scenario set + handler-vs-receive-loop emission races at lock granularity",
+         "Union of the scenario families of C01, C02, C04, C07, C10, C16 each at its own bound, plus dedicated finishStream races with <= 2/3 deviations.", "3.C13"),
+ "C14": ("model_checking", "table / goroutine oracle (white-box dump by reflection, thread census, bubble drain) after every execution and at idle quiescent points of the termination-heavy union set",
+         "Union of C04, C07, C10, C03, C01-termination, C09, C16 scenario families each at its own bound.", "3.C14"),
+ "C15": ("model_checking", "deviation-bounded DFS of concurrent API programs with EVERY synchronisation operation of the library as a scheduling point; no panic / deadlock / atomicity violation",
+         "Decides panics, deadlocks and atomicity (message and metadata oracles) for all schedules with <= 1 (quick) / 2 (thorough) deviations. The literal Go-memory-model data-race clause is not decidable by this technique with the installed tools and is not claimed (DESIGN.md 3.C15).", "3.C15"),
+ "C16": ("exploration", "enumerated raw-peer request/response frame sequences for the 4 call shapes + application send sequences",
+         "All sequences with 0..3 messages x whole/split x half-close position (both roles) and 1..3 application sends, each with <= 1 (quick) / 2 (thorough) schedule deviations.", "3.C16"),
+ "C17": ("exploration", "configuration matrix (mode x opening metadata) with concurrent mutators of every accessor result; multi-tunnel channel identity",
+         "Forward / reverse / nested x 3 opening metadata values x mutating concurrent RPCs, <= 1/2 deviations.", "3.C17"),
  "C18": ("exploration", "bounded-exhaustive enumeration of grpc-timeout header values against the gRPC spec decoder, executed on the real tunnel in virtual time",
-         "Inputs only: the property quantifies over header values; every value of an explicit finite set (all short strings over a sign/digit/unit alphabet, all digit-string lengths 1..20 per unit, the int64 overflow boundaries, repeated headers) is run through the public API on the real tunnel and the handler's deadline compared with the spec decoder.", "3.C18"),
+         "Inputs only: every value of an explicit finite set is run through the public API on the real tunnel and the handler's deadline compared with the spec decoder.", "3.C18"),
 }
 
 PENDING = {}
